@@ -102,7 +102,9 @@ fn mutate(rng: &mut Rng, spec: &AppSpec, qid: &str) -> (Value, String, Option<bo
         }
         3 => {
             q[dkey] = any_json(rng);
-            ("destination-any-type".into(), None)
+            // an id that is present but not an unsigned integer is an ill-typed field (an absent one is a tree search)
+            let ill_typed_id = !uses_coords && q[dkey].as_u64().is_none();
+            ("destination-any-type".into(), if ill_typed_id { Some(true) } else { None })
         }
         4 => {
             q[okey] = if uses_coords { json!(*rng.pick(&[181.0, -500.0, 1e12])) } else { json!(*rng.pick(&[1_000_000u64, u64::MAX, u32::MAX as u64 + 7])) };
